@@ -561,13 +561,17 @@ class GroupBy:
             return
 
         if self._group_key_pointers is not None:
-            chunks = [
-                p[k] for p, k in zip(self._group_key_pointers, self._group_ikey.chunks)
-            ]
+            chunks = []
+            for p, k in zip(self._group_key_pointers, self._group_ikey.chunks):
+                k = k.to_numpy().astype(np.int64)
+                # the null code (-1) must not be looked up in the pointer table
+                chunks.append(np.where(k < 0, -1, p[np.maximum(k, 0)]) if len(p) else k)
             self._group_key_pointers = None
         elif keep_chunked:
             # no pointers to unify, but we want to keep chunked so do nothing
             return
+        else:
+            chunks = [k.to_numpy() for k in self._group_ikey.chunks]
 
         if keep_chunked:
             self._group_ikey = pa.chunked_array(chunks)
